@@ -881,7 +881,7 @@ EXPECTED_SHAPE = {'_flush_exception': 'if( flush ){ try{ do_close=do_close flush
                   'True W:sent_continue do_close=do_close _flush_exception() }',
  'service': 'R:requests 0 if( .error ){ } else{ } try{ if( and( R:connected , not R:will_close , ) ){ '
             'service() } else{ True .close_on_finish= } } except(ClientDisconnected){ True .close_on_finish= '
-            '} except(BaseException){ if( not ){ if( ){ } else{ } .error= .version= try{ } except(KeyError){ '
+            '} except(BaseException){ if( not ){ if( ){ } else{ } .error= .version= None .command= try{ } except(KeyError){ '
             '} try{ service() } except(ClientDisconnected){ True .close_on_finish= } } else{ True '
             '.close_on_finish= } } if( .close_on_finish ){ with(requests_lock){ True W:close_when_flushed '
             'for( R:requests ){ close() } W:requests } } else{ if( R:requests len() Gt 1 ){ '
